@@ -668,8 +668,9 @@ func (g *generator) convertSelectionSet(
 			// We say: that's too complicated! and allow duplicate fields
 			// only if they're "leaf" types (enum or scalar).
 			switch field.GoType.Unwrap().(type) {
-			case *goOpaqueType, *goEnumType:
-				// Leaf field; we can just deduplicate.
+			case *goOpaqueType, *goEnumType, *goTypenameForBuiltinType:
+				// Leaf field; we can just deduplicate.  (The last case is a
+				// builtin scalar given its own type-name by a typename option.)
 				// Note GraphQL already guarantees that the conflicting field
 				// has scalar/enum type iff this field does:
 				// https://spec.graphql.org/draft/#SameResponseShape()
